@@ -520,7 +520,7 @@ func runC46Wasm(outer *testing.T) func(t rapid.TB, c wasmCase, rec *vx.Case) {
 
 func genC46Wasm(t *rapid.T) wasmCase {
 	c := wasmCase{CPAuth: rapid.IntRange(0, 3).Draw(t, "cpauth") == 0}
-	n := rapid.IntRange(14, 28).Draw(t, "nops")
+	n := rapid.IntRange(16, 30).Draw(t, "nops")
 	for i := 0; i < n; i++ {
 		if rapid.IntRange(0, 29).Draw(t, "special") == 0 {
 			c.Ops = append(c.Ops, wop{Op: "cfg-cpauth", N: rapid.IntRange(0, 1).Draw(t, "on")})
@@ -528,7 +528,7 @@ func genC46Wasm(t *rapid.T) wasmCase {
 		}
 		c.Ops = append(c.Ops, wop{
 			Op:  rapid.SampledFrom(wasmOps).Draw(t, "op"),
-			Who: rapid.SampledFrom([]string{"auth", "creator", "listed", "stranger"}).Draw(t, "who"),
+			Who: rapid.SampledFrom([]string{"auth", "auth", "creator", "listed", "stranger"}).Draw(t, "who"),
 			Via: rapid.SampledFrom([]string{"direct", "direct", "direct", "direct", "tx", "tx", "tx", "tx", "forged"}).Draw(t, "via"),
 			N:   rapid.IntRange(0, 999).Draw(t, "n"),
 		})
@@ -539,7 +539,7 @@ func genC46Wasm(t *rapid.T) wasmCase {
 func TestC46Wasm(t *testing.T) {
 	vx.Check(t, vx.Prop[wasmCase]{
 		ID: c46,
-		Rule: "08-wasm rows: histories of 14-28 requests {MsgStoreCode, MsgRemoveChecksum, MsgMigrateContract} x signer class (authority, wasm-client creator, listed relayer, stranger, forged Signer field) " +
+		Rule: "08-wasm rows: histories of 16-30 requests {MsgStoreCode, MsgRemoveChecksum, MsgMigrateContract} x signer class (authority, wasm-client creator, listed relayer, stranger, forged Signer field) " +
 			"x delivery (MsgServiceRouter handler | signed tx) x authority configuration (keeper authority | consensus-params override) on the 08-wasm simapp with the mock VM; " +
 			"non-trivial = >=4 requests the model forbids AND >=3 authority requests of which >=80% succeed; distinct by full history",
 		MinNTFrac: 0.6,
